@@ -260,6 +260,96 @@ example :
       loadBinary { w with files := ("d/y.h", 201) :: w.files } "d/a.c" = .stale "behind-inherited" := by
   decide
 
+/-! ## (a') what may be saved: no binary for a program laid out for a parent that is no longer current -/
+
+/-- the program blocks reachable from a linked block through `prog->inherit[]` -/
+inductive ReachL (w : World) : String × Nat → String × Nat → Prop where
+  | refl (q : String × Nat) : ReachL w q q
+  | step {q p r : String × Nat} (lp : LoadedProg) : w.progs.lookup q.1 = some lp → p ∈ lp.linked → ReachL w p r →
+      ReachL w q r
+
+theorem progOutdated_false_reach (w : World) {q r : String × Nat} (hr : ReachL w q r) :
+    ∀ fuel, progOutdated w fuel q.1 q.2 = false →
+      ∃ lp, w.progs.lookup r.1 = some lp ∧ lp.gen = r.2 ∧ w.loaded.contains (objName w r.1) = true ∧
+        (∀ f, f ∈ lp.files → ∀ t, w.mtime f = some t → t ≤ lp.loadTime) := by
+  induction hr with
+  | refl q =>
+    intro fuel h
+    cases fuel with
+    | zero => simp [progOutdated] at h
+    | succ fuel =>
+      unfold progOutdated at h
+      cases hl : w.progs.lookup q.1 with
+      | none => rw [hl] at h; simp at h
+      | some lp =>
+        rw [hl] at h
+        simp only [Bool.or_eq_false_iff] at h
+        refine ⟨lp, rfl, ?_, ?_, ?_⟩
+        · simpa using h.1.1.2
+        · simpa using h.1.1.1
+        · intro f hf
+          apply (checkTimes_ne_zero w lp.loadTime f).mp
+          intro hc
+          have := h.1.2
+          rw [List.any_eq_false] at this
+          exact this f hf (by simpa using hc)
+  | step lp hl hp _ ih =>
+    intro fuel h
+    cases fuel with
+    | zero => simp [progOutdated] at h
+    | succ fuel =>
+      unfold progOutdated at h
+      rw [hl] at h
+      simp only [Bool.or_eq_false_iff] at h
+      have := h.2
+      rw [List.any_eq_false] at this
+      exact ih fuel (by simpa using this _ hp)
+
+/-- **saved_only_against_current_parents**: `save_binary` writes a binary only if EVERY program block the new program
+    is linked with — its parents and, through them, every block reachable by `prog->inherit[]`, at any depth — is still
+    the program of the loaded object of its name and none of the files it was built from (its source, its includes) has
+    been modified since that object was loaded.  So the layout baked into a saved binary (variable and function index
+    offsets of the inherited programs) is the layout the current sources give. -/
+theorem saved_only_against_current_parents (s : Sys) (d : ProgDecl) (linked : List (String × Nat)) (t : Nat)
+    (incs : List String) (h : Ev.sv d.name t incs ∈ (saveStep s d linked).evs) (hnew : Ev.sv d.name t incs ∉ s.evs) :
+    ∀ pg, pg ∈ linked → ∀ r, ReachL s.w pg r →
+      ∃ lp, s.w.progs.lookup r.1 = some lp ∧ lp.gen = r.2 ∧ s.w.loaded.contains (objName s.w r.1) = true ∧
+        (∀ f, f ∈ lp.files → ∀ t, s.w.mtime f = some t → t ≤ lp.loadTime) := by
+  unfold saveStep at h
+  by_cases hs : d.save = true
+  · by_cases ha : saveAllowed s.w linked = true
+    · intro pg hpg r hr
+      unfold saveAllowed at ha
+      have : linked.any (fun pg => progOutdated s.w treeFuel pg.1 pg.2) = false := by simpa using ha
+      rw [List.any_eq_false] at this
+      exact progOutdated_false_reach s.w hr treeFuel (by simpa using this pg hpg)
+    · simp [hs, ha] at h
+      exact absurd h hnew
+  · simp [hs] at h
+    exact absurd h hnew
+
+/-- and it is not more cautious than that: with current parents a `#pragma save_binary` program is saved -/
+theorem current_parents_are_saved (s : Sys) (d : ProgDecl) (linked : List (String × Nat)) (hs : d.save = true)
+    (ha : saveAllowed s.w linked = true) : Ev.sv d.name s.vnow d.includes ∈ (saveStep s d linked).evs := by
+  simp [saveStep, hs, ha]
+
+/-- non-vacuity: a inherits b (block 3, loaded at 1013) inherits c (block 2).  Saved; but not after b.c was edited at
+    1024 while b stays loaded, not after c was loaded again (block 5) under b, not with a header of c touched -/
+example :
+    let w : World := { files := [("a.c", 1002), ("b.c", 1001), ("c.c", 1000), ("c.h", 999)],
+                       progs := [("b.c", { files := ["b.c"], inherits := ["c.c"], gen := 3, loadTime := 1013, linked := [("c.c", 2)] }),
+                                 ("c.c", { files := ["c.c", "c.h"], inherits := [], gen := 2, loadTime := 1013 })],
+                       loaded := ["b", "c"],
+                       objOf := fun n => if n = "b.c" then "b" else if n = "c.c" then "c" else "?",
+                       binOf := fun n => if n = "b.c" then "B/b" else if n = "c.c" then "B/c" else "B/a" }
+    saveAllowed w [("b.c", 3)] = true ∧
+      saveAllowed { w with files := ("b.c", 1024) :: w.files } [("b.c", 3)] = false ∧
+      saveAllowed { w with files := ("c.h", 1024) :: w.files } [("b.c", 3)] = false ∧
+      saveAllowed { w with progs := ("c.c", { files := ["c.c"], inherits := [], gen := 5, loadTime := 1030 }) :: w.progs }
+        [("b.c", 3)] = false ∧
+      saveAllowed { w with loaded := ["c"] } [("b.c", 3)] = false := by
+  decide
+
 /-! ## (b) sort_function_table -/
 
 /-- **swap_loop_correct**: for every table and every permutation `temp` with inverse table `inverse`, the loop of n-1
